@@ -1,6 +1,9 @@
 mod util;
 mod s_atoms;
 mod s_terms;
+mod canon;
+mod s_topology;
+mod s_matrix;
 
 fn main() {
     let args: Vec<String> = std::env::args().collect();
@@ -25,6 +28,8 @@ fn main() {
     match args[1].as_str() {
         "atoms" => s_atoms::run(&mut out, seed, &tier),
         "terms" => s_terms::run(&mut out, seed, &tier),
+        "topology" => s_topology::run(&mut out, seed, &tier),
+        "matrix" => s_matrix::run(&mut out, seed, &tier),
         other => { eprintln!("unknown stream {}", other); std::process::exit(2); }
     }
     let _ = rest;
